@@ -46,11 +46,12 @@ import (
 type Kind int
 
 const (
-	KTok   Kind = iota // terminal Ch
-	KRef               // nonterminal NT
-	KGroup             // ( alt | alt ... )
-	KOpt               // Sub?
-	KList              // Sub+ Sub* (Sub separator Sep)+ (Sub separator Sep)*
+	KTok    Kind = iota // terminal Ch
+	KRef                // nonterminal NT
+	KGroup              // ( alt | alt ... )
+	KOpt                // Sub?
+	KList               // Sub+ Sub* (Sub separator Sep)+ (Sub separator Sep)*
+	KMarker             // .Name : a state marker; no symbol, no tokens, no event
 )
 
 // ArrowKind says whether an arrow is reported.
@@ -72,12 +73,13 @@ type Arrow struct {
 // Expr is one part.
 type Expr struct {
 	Kind Kind   `json:"k"`
-	Ch   byte   `json:"ch,omitempty"`   // Tok: 'a'..'c'
-	NT   int    `json:"nt,omitempty"`   // Ref: index into Grammar.NTs
-	Alts []*Alt `json:"alts,omitempty"` // Group
-	Sub  *Expr  `json:"sub,omitempty"`  // Opt, List: a Tok, Ref or Group
-	Sep  byte   `json:"sep,omitempty"`  // List: separator terminal, 0 = none
-	Plus bool   `json:"plus,omitempty"` // List: at least one element
+	Ch   byte   `json:"ch,omitempty"`     // Tok: 'a'..'c'
+	NT   int    `json:"nt,omitempty"`     // Ref: index into Grammar.NTs
+	Alts []*Alt `json:"alts,omitempty"`   // Group
+	Sub  *Expr  `json:"sub,omitempty"`    // Opt, List: a Tok, Ref or Group
+	Sep  byte   `json:"sep,omitempty"`    // List: separator terminal, 0 = none
+	Plus bool   `json:"plus,omitempty"`   // List: at least one element
+	Name string `json:"marker,omitempty"` // Marker: its name
 }
 
 // Alt is one alternative: a sequence of parts with an optional arrow.
@@ -93,9 +95,24 @@ type Nonterm struct {
 	Alts    []*Alt `json:"alts"`
 }
 
-// Grammar: NTs[0] is the input nonterminal (with eoi).
+// Entry is one %input declaration.
+type Entry struct {
+	NT    int  `json:"nt"`
+	NoEoi bool `json:"noeoi,omitempty"`
+}
+
+// Grammar: without Entries NTs[0] is the only input nonterminal (with eoi).
 type Grammar struct {
-	NTs []*Nonterm `json:"nts"`
+	NTs     []*Nonterm `json:"nts"`
+	Entries []Entry    `json:"entries,omitempty"` // %input a, b no-eoi; (empty = NTs[0])
+}
+
+// Inputs lists the %input declarations (the default when none is given).
+func (g *Grammar) Inputs() []Entry {
+	if len(g.Entries) == 0 {
+		return []Entry{{NT: 0}}
+	}
+	return g.Entries
 }
 
 // ---------------------------------------------------------------------------------------------
@@ -213,6 +230,8 @@ func (g *Grammar) exprString(e *Expr) string {
 		return g.NTs[e.NT].Name
 	case KGroup:
 		return g.groupString(e)
+	case KMarker:
+		return "." + e.Name
 	case KOpt:
 		return g.exprString(e.Sub) + "?"
 	case KList:
@@ -272,7 +291,17 @@ func (g *Grammar) TM(name string, fixWS bool, options ...string) string {
 	for _, ch := range g.Terminals() {
 		fmt.Fprintf(&sb, "%s: /%c/\n", evTermName(ch), ch)
 	}
-	fmt.Fprintf(&sb, "\n:: parser\n\n%%input %s;\n\n", g.NTs[0].Name)
+	sb.WriteString("\n:: parser\n\n%input ")
+	for i, in := range g.Inputs() {
+		if i > 0 {
+			sb.WriteString(", ")
+		}
+		sb.WriteString(g.NTs[in.NT].Name)
+		if in.NoEoi {
+			sb.WriteString(" no-eoi")
+		}
+	}
+	sb.WriteString(";\n\n")
 	seen := map[string]bool{}
 	for _, a := range g.Arrows() {
 		if a.Kind == CategoryArrow && !seen[a.Name] {
@@ -314,7 +343,7 @@ func (g *Grammar) Clone() *Grammar {
 		}
 		return c
 	}
-	out := &Grammar{}
+	out := &Grammar{Entries: append([]Entry(nil), g.Entries...)}
 	for _, nt := range g.NTs {
 		c := &Nonterm{Name: nt.Name, Default: cw(nt.Default)}
 		for _, a := range nt.Alts {
@@ -522,7 +551,7 @@ func (d *evDeriver) exprMin(e *Expr) int {
 			}
 		}
 		return m
-	case KOpt:
+	case KOpt, KMarker:
 		return 0
 	case KList:
 		if e.Plus {
@@ -628,6 +657,12 @@ func (d *evDeriver) expr(e *Expr, i, j int) []evFrag {
 			out = append(out, d.alt(a, a.Arrow, i, j)...)
 		}
 		return out
+	case KMarker:
+		// a state marker occupies no stack slot: not a symbol
+		if i == j {
+			return []evFrag{{}}
+		}
+		return nil
 	case KOpt:
 		out := d.expr(e.Sub, i, j)
 		if i == j {
@@ -755,10 +790,13 @@ func (d *evDeriver) chain(e *Expr, i, j int) []*Node {
 // Trees returns the derivation trees of the token string w (one byte per token) from NTs[0].
 // giveUp is set when the grammar is cyclic (X =>+ X) or the enumeration budget is exhausted;
 // the result is then meaningless.
-func (g *Grammar) Trees(w string) (trees []*Node, giveUp bool) {
+func (g *Grammar) Trees(w string) (trees []*Node, giveUp bool) { return g.TreesFrom(0, w) }
+
+// TreesFrom is Trees for an arbitrary start nonterminal (a second %input).
+func (g *Grammar) TreesFrom(nt int, w string) (trees []*Node, giveUp bool) {
 	d := &evDeriver{g: g, w: []byte(w), ntMemo: map[[3]int][]*Node{}, inprog: map[[3]int]bool{}, listMemo: map[*Expr]map[[2]int][]*Node{}, budget: 20000}
 	d.prepare()
-	trees = d.nt(0, 0, len(w))
+	trees = d.nt(nt, 0, len(w))
 	return trees, d.cyclic || d.overflow
 }
 
@@ -811,7 +849,7 @@ type Event struct {
 	Off      int    `json:"off"`
 	End      int    `json:"end"`
 	Shape    string `json:"shape,omitempty"`
-	NoSyms   bool   `json:"nosyms,omitempty"`  // the part has no symbol at all
+	NoSyms   bool   `json:"nosyms,omitempty"`   // the part has no symbol at all
 	NoTokens bool   `json:"notokens,omitempty"` // the part covers no token
 	// Extends: fixWhitespace is off, the part has tokens and its end offset lies beyond the end
 	// of its last token because it ends in an empty symbol (see package comment).
